@@ -1396,11 +1396,17 @@ class Interp:
     def run_generator(self, fv, frame):
         """generators are run eagerly; the yielded values are collected into a list"""
         frame.yielded = []
+        pending = None
         try:
             self.exec_block(fv.node.body, frame)
         except _Return:
             pass
-        return GenResult(frame.yielded)
+        except AbsRaise as e:
+            # the body of a generator runs when it is iterated, not when it is called: the exception belongs to the consumer
+            pending = e
+        g = GenResult(frame.yielded)
+        g.pending = pending
+        return g
 
     def ex_Yield(self, node, frame):
         v = self.eval(node.value, frame) if node.value is not None else None
@@ -1485,7 +1491,12 @@ class Interp:
             return list(v)
         if isinstance(v, GenResult):
             # what next() has taken is gone (a full pass is not recorded as exhausting it: models may look twice)
-            return list(v.items[getattr(v, 'pos', 0):])
+            rest = list(v.items[getattr(v, 'pos', 0):])
+            if getattr(v, 'pending', None) is not None:
+                if rest:
+                    self.fail('a generator that raises after yielding is consumed item by item: not modelled', node)
+                raise v.pending
+            return rest
         if isinstance(v, Instance) and v.tuple_items() is not None:
             return v.tuple_items()
         if isinstance(v, (type({}.items()), type({}.values()), type({}.keys()), zip, map, enumerate,
